@@ -13,7 +13,7 @@ LEVEL_TEXT = ("TLC explores OptParse.tla - the ideal reading of a command line a
               "other pass untouched, non-option words untouched in order, strictly advancing cursor, compaction = filter). Every "
               "behaviour TLC generates (expected targets, argv, bad count, flags per pass) is then executed on spifopt_parse in an "
               "ASan build of the current tree (fresh exact-size heap argv, guarded targets, CPU watchdog) and compared.")
-LEVEL_NOTE = ("Bounded scope: all argv of <= 3 words over 17 tokens and <= 2 words over the full 35-token alphabet (quick); <= 4 words "
+LEVEL_NOTE = ("Bounded scope: all argv of <= 3 words over 15 tokens and <= 2 words over the full 35-token alphabet (quick); <= 4 words "
               "over 12 tokens and <= 3 words over all 35 (thorough); plus two family scopes: all ten boolean words (8 + 2 case variants) bare and =attached x long boolean, and long names that are prefixes of each other / of the typed name (<= 2-3 words); 2 option tables x 4 settings; beyond the bound only seeded "
               "samples of 4-8 words (TLC computes their expectation too). Points DESIGN.md 8a marks E are accepted either way "
               "(boolean word after a short boolean, lone '-' / bare '--', whether unknown-option words stay in argv, exact count "
@@ -314,7 +314,8 @@ def long_vectors(ctx, exe, state):
     def run_vectors(vs, tag):
         with open(os.path.join(d, "MC_OptParseLong.tla"), "w") as f:
             f.write("---- MODULE MC_OptParseLong ----\nEXTENDS MC_OptParse\n")
-            f.write("LongTokText == <<\n%s\n>>\n" % ",\n".join("<<%s>>" % ", ".join(str(c) for c in w) for w in toktext))
+            need = max([nbase] + [t for v in vs for t in v])          # sweep tokens only when a vector uses them
+            f.write("LongTokText == <<\n%s\n>>\n" % ",\n".join("<<%s>>" % ", ".join(str(c) for c in w) for w in toktext[:need]))
             f.write("Sampled == {\n")
             f.write(",\n".join("<<%s>>" % ", ".join(str(t) for t in v) for v in sorted(vs)))
             f.write("\n}\nArgvsSampled(t) == Sampled\n====\n")
@@ -335,24 +336,27 @@ def long_vectors(ctx, exe, state):
         toktext.append(w)
         return len(toktext)
     base = {"".join(chr(c) for c in w): k + 1 for k, w in enumerate(toktext[:nbase])}
-    pw = [8, 16, 32, 64, 128] if ctx.tier == "quick" else [8, 16, 32, 64, 128, 256, 512, 1024]
-    pc = [8, 16, 32, 64, 128, 256, 512, 1024] if ctx.tier == "quick" else [8, 16, 32, 64, 128, 256, 512, 1024, 2048, 4096, 8192]
-    around = lambda ps: sorted({m for q in ps for m in (q - 1, q, q + 1)} | {126, 127})
+    quick = ctx.tier == "quick"
+    pw = [8, 16, 32, 64] if quick else [8, 16, 32, 64, 128, 256, 512, 1024]
+    pc = [8, 16, 32, 64, 128, 256] if quick else [8, 16, 32, 64, 128, 256, 512, 1024, 2048, 4096, 8192]
+    around = lambda ps: sorted({m for q in ps for m in (q - 1, q, q + 1)} | ({126, 127} if max(ps) >= 128 else set()))
     sweep = set()
 
     def contexts(t):
-        sweep.update([(t,), (t, base["x"]), (base["-ab"], t), (base["x"], t, base["7"])])
+        sweep.update([(t,), (base["x"], t, base["7"])] + ([] if quick else [(t, base["x"]), (base["-ab"], t)]))
     for m in around(pw):
         words = [("'q %d'" % k if k % 5 == 4 else "w%d" % (k % 10)) for k in range(m)]
         contexts(tk("--exec=" + " ".join(words)))                                   # ArgListEq: m words inside one argv word
+        contexts(tk("-" + "".join("ab"[k % 2] for k in range(m))))                  # bundle of m known letters
+        contexts(tk("-" + "".join("abz"[k % 3] for k in range(m))))                 # ... with unknown letters in it
+        if m > 260:
+            continue            # whole lines of more than ~256 words are not swept (state size), lists inside one word are
         cyc = [base["x"], base["7"], base["on"], base["-a"], base["--num"]]
         for opt in ("-e", "--exec"):                                                # ArgListRest: m words on the line
             sweep.add((base[opt],) + tuple(cyc[k % 5] for k in range(m)))
             sweep.add((base["-ab"], base[opt]) + tuple(cyc[k % 5] for k in range(m)))
         sweep.add(tuple(base["x"] if k % 3 else base["7"] for k in range(m)))         # m non-option words
         sweep.add(tuple(base["x"] for k in range(m - 1)) + (base["-ab"],))
-        contexts(tk("-" + "".join("ab"[k % 2] for k in range(m))))                  # bundle of m known letters
-        contexts(tk("-" + "".join("abz"[k % 3] for k in range(m))))                 # ... with unknown letters in it
     for m in around(pc):
         val = "".join("abcdefghij"[k % 10] for k in range(m))
         for spell in ("--file=%s", "-f%s", "-bf%s", "--theme=%s", "-t%s", "-e%s", "--zap%s", "%s"):
